@@ -139,7 +139,17 @@ func genFERecordSchema(r *rand.Rand, depth int, lists bool, prefix string) *Node
 				n = inner
 			}
 		}
-		kids = append(kids, Kid{Key: keys[i], Tags: genTags(r, g, keys[i]), Node: n})
+		tg := genTags(r, g, keys[i])
+		if n.K == "slice" && r.Intn(5) < 2 {
+			// the PHP-style spelling of a list parameter in url-encoded sources
+			if tg.Form != "" {
+				tg.Form += "[]"
+			}
+			if tg.Query != "" {
+				tg.Query += "[]"
+			}
+		}
+		kids = append(kids, Kid{Key: keys[i], Tags: tg, Node: n})
 	}
 	return strct(kids, nil, nil)
 }
@@ -275,3 +285,57 @@ func famFrontends(tw *traceWriter, r *rand.Rand, n int) {
 var _ = z.String
 
 func init() { families["frontends"] = famFrontends }
+
+// C02 / C04 through the url-encoded, environment and HTTP-JSON front ends: one-level records (no nested struct, at
+// least one field present, so that the key-resolution findings of nested / empty records do not interfere), lists
+// spelled "key" and "key[]", every field possibly absent
+func famFlat(tw *traceWriter, r *rand.Rand, n int) {
+	for i := 0; i < n; i++ {
+		lists := r.Intn(3) > 0
+		var sch *Node
+		for {
+			sch = genFERecordSchema(r, 0, lists, "")
+			flat := true
+			for _, k := range sch.Kids {
+				if k.Node.K != "prim" && k.Node.K != "slice" {
+					flat = false
+				}
+			}
+			if flat {
+				break
+			}
+		}
+		rec := genFERecord(r, sch, "")
+		present := false
+		for _, e := range rec.Items {
+			present = present || e.Val.T == "val" || e.Val.T == "list"
+		}
+		if !present {
+			for j, k := range sch.Kids {
+				if k.Node.K == "prim" {
+					rec.Items[j].Val = val(1)
+					present = true
+					break
+				}
+			}
+		}
+		if !present {
+			continue
+		}
+		for _, fe := range []string{"zhttpjson", "form", "query", "env"} {
+			if fe == "env" && lists {
+				continue
+			}
+			flat := fe != "zhttpjson"
+			top := []Ent{}
+			in := renderFor(sch, rec, fe, flat, &top)
+			if flat {
+				in = mapIn(top...)
+			}
+			c := &Case{ID: fmt.Sprintf("fl%d-%s", i, fe), Mode: "parse", Fe: fe, Schema: sch, Input: in}
+			tw.emitCase(c, "", false)
+		}
+	}
+}
+
+func init() { families["flat"] = famFlat }
